@@ -222,9 +222,12 @@ def faithful_run(prop, rep, docs, seed, n_inst=10, want_invalid=True, settings_f
                 if text in seen:
                     continue
                 seen.add(text)
-                if not pipeline.within_i64(v):
+                if not (pipeline.within_u64(v) if lab == "gen" else pipeline.within_i64(v)):
+                    # mutants may push an unformatted integer beyond i64, the documented fallback type (C10)
                     rep.count("instance_outside_i64_skipped")
                     continue
+                if lab == "gen" and not pipeline.within_i64(v):
+                    rep.count("instance_with_u64_value")
                 try:
                     valid = orc.valid(v, dname)
                 except Exception as e:  # oracle failure is inconclusive for this instance
